@@ -202,7 +202,7 @@ def run_wsgi(path, mapping, endpoint, wrapped, spy):
     return res
 
 
-def run_asgi(path, mapping, endpoint, wrapped, spy):
+def run_asgi(path, mapping, endpoint, wrapped, spy, root_path=None):
     import engineio
 
     class Eng:
@@ -233,6 +233,10 @@ def run_asgi(path, mapping, endpoint, wrapped, spy):
             res['body'] += ev.get('body', b'')
     scope = {'type': 'http', 'path': path, 'method': 'GET', 'headers': [],
              'query_string': b''}
+    if root_path is not None:
+        # (ASGI: "path" is the full path; root_path only tells where the
+        # application is mounted - routing is by path)
+        scope['root_path'] = root_path
     try:
         loop = asyncio.new_event_loop()
         try:
@@ -260,13 +264,15 @@ def check_path(rec, root, gateway, mname, mapping, endpoint, wrapped, path,
                            wrapped, spy)
         else:
             res = run_asgi(path, mapping if live is None else live, endpoint,
-                           wrapped, spy)
+                           wrapped, spy, case.get('root_path'))
     finally:
         _watch[0] = None
     opened = [os.path.realpath(p) for p in _opened]
     rec.count('files_opened', len(opened))
-    desc = 'gateway=%s mapping=%s endpoint=%r wrapped=%r path=%r' % (
-        gateway, mname, endpoint, wrapped, path)
+    desc = 'gateway=%s mapping=%s endpoint=%r wrapped=%r path=%r%s' % (
+        gateway, mname, endpoint, wrapped, path,
+        (' scope root_path=%r' % case['root_path'])
+        if case.get('root_path') is not None else '')
 
     def V(key, msg):
         rec.viol(key, msg + ' | ' + desc, dict(case, path=path))
@@ -495,6 +501,11 @@ def run_shard(spec):
         for gw, mname, ep, wrapped in combos:
             case = {'gateway': gw, 'mapping': mname, 'endpoint': ep,
                     'wrapped': wrapped}
+            if gw == 'asgi':
+                # scopes with and without a mount prefix announced
+                case['root_path'] = rng.choice([
+                    None, '', '/static', '/engine.io', '/a', '/a/b', '/sub',
+                    '/static/sub'])
             paths = ['/']
             for d in range(1, depth + 1):
                 for tup in itertools.product(SEGS, repeat=d):
